@@ -160,6 +160,17 @@ def run(ctx):
                         res.violation(case, "openpack differs from SimfilePack/SimfileDirectory (or drops loader options)", impl=str(got_pack)[:300], expected=str(exp_pack)[:300])
                     elif via_pack and any(any(k2.get(k) != v for k, v in kw.items()) for k2 in seen_kwargs):
                         res.violation(case, "openpack did not pass the loader options down", impl=seen_kwargs[:2])
+                # SimfilePack.simfiles(**kwargs): the same simfiles, options passed down
+                if not any_dup and not (stray and strict and via_pack) and isinstance(got_pack, list):
+                    del seen_kwargs[:]
+                    try:
+                        titles = [sf.title for sf in SimfilePack(packdir, filesystem=fsys).simfiles(**kw)]
+                    except Exception as ex:
+                        titles = core.exc_name(ex)
+                    if titles != [t for t, _ in got_pack]:
+                        res.violation(case, "SimfilePack.simfiles() differs from openpack", impl=str(titles)[:200], expected=str([t for t, _ in got_pack])[:200])
+                    elif via_pack and any(any(k2.get(k) != v for k, v in kw.items()) for k2 in seen_kwargs):
+                        res.violation(case, "SimfilePack.simfiles() did not pass the loader options down", impl=seen_kwargs[:2])
                 if fsname == "native": shutil.rmtree(root, ignore_errors=True)
     finally:
         simfile.open = real_open
